@@ -27,9 +27,9 @@ RULE = ('cases: seeded grid searches over grids of 1-12 combinations (1-3 parame
         'table).')
 ASSUMPTIONS = ['grids carry no repeated values (the table key must identify the combination; duplicates are C14\'s subject)',
                'workers are forked (Linux default), so the score table set before the call is visible to them']
-FLOORS = {'quick': {'searches': 300, 'parallel_searches': 150, 'results_checked': 1500, 'mode_0': 15, 'mode_1': 15, 'mode_2': 15, 'mode_3': 15,
+FLOORS = {'quick': {'grids_with_non_list_collections': 67, 'searches': 300, 'parallel_searches': 150, 'results_checked': 1500, 'mode_0': 15, 'mode_1': 15, 'mode_2': 15, 'mode_3': 15,
                     'mode_4': 15, 'mode_5': 15, 'mode_6': 15, 'mode_7': 15, 'tied_optimum': 40, 'optimum_last': 30, 'optimum_first': 30,
-                    'optimum_middle': 20, 'beyond_maxsize_tables': 40, 'seeded_grids': 40, 'big_equal_valued_neighbours': 2, 'big_long_variance': 2, 'big_grids': 2, 'parameter_list_reused': 80, 'style_bigint': 20, 'style_nearmax': 8, 'limit_below_completion': 30,
+                    'optimum_middle': 20, 'beyond_maxsize_tables': 40, 'seeded_grids': 40, 'big_equal_valued_neighbours': 2, 'big_long_variance': 2, 'big_grids': 2, 'parameter_list_reused': 80, 'style_bigint': 15, 'style_nearmax': 8, 'limit_below_completion': 30,
                     'reach:Batching.grid_search': 300, 'reach:Batching._score_model_for_search': 1500},
           'thorough': {'searches': 12000, 'parallel_searches': 6000}}
 EXHAUSTIVE = {}
@@ -134,16 +134,21 @@ def case_search(ctx, case):
     outcomes = []
     procs_list = [1, rng.choice([2, 4, 8, 16])]
     shared_pl = None
+    # the values of a parameter may be handed over as any re-iterable collection (tuple, range, dict view, an iterable without len())
+    from vlib import reps as _reps
+    given = {k_: _reps.as_collection(rng, v_, 0.4) for k_, v_ in grid.items()}
+    if any(type(given[k_]) is not type(grid[k_]) for k_ in grid):
+        ctx.count('grids_with_non_list_collections')
     if rng.random() < 0.5:
         shared_pl = batching.ParameterList()          # ONE ParameterList object used for both searches
-        for k_, v_ in grid.items():
+        for k_, v_ in given.items():
             shared_pl.add_parameter(k_, v_)
         ctx.count('parameter_list_reused')
     if rng.random() < 0.5:
         procs_list = procs_list[::-1]
     for procs in procs_list:
         bm.COUNTS.clear()
-        params = shared_pl if shared_pl is not None else dict(grid)
+        params = shared_pl if shared_pl is not None else dict(given)
         kw = dict(processes=procs, repetitions=reps, mode=batching.ScoreMode(mode))
         if lim is not None:
             kw['max_timesteps'] = lim
